@@ -28,6 +28,48 @@ func (e *Engine) mapBuiltin(env *Env, x *Expr) (Val, bool) {
 			unsupported("pack(x)")
 		}
 		return e.packVal(env.st, e.evalExpr(env, x.Args[0])), true
+	case "bignumok", "bigparse":
+		// decimal big-integer strings: big.Int.SetString(s, 10)
+		e.C.DeclareFun("big_num_ok", []Sort{SStr, BV(64)}, SBool)
+		e.C.DeclareFun("big_parse", []Sort{SStr, BV(64)}, "Obj")
+		s := e.coerceTo(env, e.evalExpr(env, x.Args[0]), SStr)
+		if x.Name == "bignumok" {
+			return mkBool("(big_num_ok " + s.T + " #x000000000000000a)"), true
+		}
+		return mk("Obj", "(big_parse "+s.T+" #x000000000000000a)"), true
+	case "calcdiff":
+		// the prescribed difficulty: calc_difficulty(time, pack(parent), bombDelayFromParent) (eth_c18_externs.go)
+		e.C.DeclareFun("calc_difficulty", []Sort{BV(64), "Obj", "Obj"}, "Obj")
+		t := e.coerceTo(env, e.evalExpr(env, x.Args[0]), BV(64))
+		p := e.coerceTo(env, e.evalExpr(env, x.Args[1]), "Obj")
+		b := e.coerceTo(env, e.evalExpr(env, x.Args[2]), "Obj")
+		return mk("Obj", fmt.Sprintf("(calc_difficulty %s %s %s)", t.T, p.T, b.T)), true
+	case "bigu64":
+		e.C.DeclareFun("big_u64", []Sort{"Obj"}, BV(64))
+		a := e.coerceTo(env, e.evalExpr(env, x.Args[0]), "Obj")
+		return mkBV(64, "(big_u64 "+a.T+")", false), true
+	case "bigsub":
+		e.C.DeclareFun("big_sub", []Sort{"Obj", "Obj"}, "Obj")
+		a := e.coerceTo(env, e.evalExpr(env, x.Args[0]), "Obj")
+		b := e.coerceTo(env, e.evalExpr(env, x.Args[1]), "Obj")
+		return mk("Obj", fmt.Sprintf("(big_sub %s %s)", a.T, b.T)), true
+	case "bigcmp":
+		e.C.DeclareFun("big_cmp", []Sort{"Obj", "Obj"}, BV(64))
+		a := e.coerceTo(env, e.evalExpr(env, x.Args[0]), "Obj")
+		b := e.coerceTo(env, e.evalExpr(env, x.Args[1]), "Obj")
+		return mkBV(64, fmt.Sprintf("(big_cmp %s %s)", a.T, b.T), true), true
+	case "anyenc":
+		e.C.DeclareFun("any_enc", []Sort{"Obj"}, SStr)
+		o := e.coerceTo(env, e.evalExpr(env, x.Args[0]), "Obj")
+		return mk(SStr, "(any_enc "+o.T+")"), true
+	case "anydec", "anyok":
+		e.C.DeclareFun("any_dec", []Sort{SStr}, "Obj")
+		e.C.DeclareFun("any_ok", []Sort{SStr}, SBool)
+		s := e.coerceTo(env, e.evalExpr(env, x.Args[0]), SStr)
+		if x.Name == "anyok" {
+			return mkBool("(any_ok " + s.T + ")"), true
+		}
+		return mk("Obj", "(any_dec "+s.T+")"), true
 	case "seqbytes":
 		// element i of an opaque sequence of byte slices ([][]byte)
 		e.C.DeclareFun("seq_bytes", []Sort{"Obj", BV(64)}, SBytes)
